@@ -135,6 +135,17 @@ pub fn run(ctx: &Ctx) -> Report {
                             rep.count("rule_removal_rechecks", 1); rep.note_nontrivial(&(&full, &f, rname));
                             if ae.verif_check_proof(&proof_store, proof_id).is_ok() { rep.violate("property", "c12-accepts-without-rule", format!("the proof of {f} uses rule `{rname}` yet is accepted against a program from which that rule was removed"), prog()); }
                         }
+                        // ALTER a used rule: the same name, one more premise in its body — a proof that supplies the old
+                        // number of premise proofs does not justify a step of the altered rule
+                        for rname in used.iter().take(2) {
+                            let mut hit = false;
+                            let altered: Vec<String> = text.iter().map(|c| if c.starts_with("(rule (") && c.contains(&format!(":name \"{rname}\"")) { hit = true; c.replacen("(rule (", "(rule ((= zz9 (A)) ", 1) } else { c.clone() }).collect();
+                            if !hit { continue; }
+                            let mut ae = EGraph::new_with_proofs(); engine::run(&mut ae, &hdr); let mut ok = true; for c in &altered { if let engine::Outcome::Err(e) = engine::run(&mut ae, c) { if c.starts_with("(rule (") && c.contains("zz9") { ok = false; let _ = e; } } }
+                            if !ok { continue; }
+                            rep.count("rule_alteration_rechecks", 1); rep.note_nontrivial(&(&full, &f, rname, "altered"));
+                            if ae.verif_check_proof(&proof_store, proof_id).is_ok() { rep.violate("property", "c12-accepts-altered-rule", format!("the proof of {f} uses rule `{rname}` yet is accepted against a program in which that rule has an additional premise"), prog()); }
+                        }
                         // remove every top-level ground insertion / union: any Fiat step must become unjustified
                         let altered: Vec<&String> = text.iter().zip(&cmds).filter(|(_, c)| !matches!(c, Cmd::Act(_))).map(|(t, _)| t).collect();
                         let mut ae = EGraph::new_with_proofs(); engine::run(&mut ae, &hdr); for c in &altered { engine::run(&mut ae, c); }
